@@ -169,6 +169,12 @@ pub fn run_case(sc: &Scenario, mode: &Mode) -> CaseOut {
         None
     };
     let mut prev_unclean = false;
+    match sc.motif {
+        1 => out.count("scenarios_with_motif_late_needed_ephemeral"),
+        2 => out.count("scenarios_with_motif_ephemeral_chain"),
+        3 => out.count("scenarios_with_motif_shared_ephemeral_concurrent"),
+        _ => out.count("scenarios_without_motif"),
+    }
     for (i, step) in sc.steps.iter().enumerate() {
         for e in step.edits.iter() {
             w.apply_edit(e);
